@@ -686,7 +686,7 @@ def run(rep):
         "the evaluator reaches heap objects only through Gc/GcView handles (schedule invisibility itself is validated by the sweep (c), not proved for the full evaluator)",
     ]
     regenerate_table()
-    vlib.prelude(rep)
+    vlib.prelude(rep, extra_modules=['RsjProps.C03Eval'])
     dynamic(rep)
 
 
